@@ -148,3 +148,124 @@ PARTS = [
          budget={'quick': 200, 'thorough': 3000},
          describe='simulate_rise.compute_rise_curve'),
 ]
+
+
+# ---------------------------------------------------------------- CLI level
+
+import yaml  # noqa: E402
+
+from vfw import gen_truth, model_master  # noqa: E402
+from vfw.core import Reject  # noqa: E402
+from vfw.pipeline import Workflow  # noqa: E402
+from vfw.props.C06 import read_curve  # noqa: E402
+
+
+@st.composite
+def cli_cases(draw, tier):
+    record = draw(gen_truth.truth_records(noise=draw(st.booleans()),
+                                          min_storms=4, max_storms=8))
+    record['grid'] = draw(st.sampled_from(['1.0', '0.5', '2.0', '0.25']))
+    kind = draw(st.sampled_from(['spline', 'spline', 'peatclsm']))
+    levels = [v for _, v in record['wl']]
+    lo, hi = min(levels), max(levels)
+    if kind == 'spline':
+        sy = draw(gen_params.spline_sy(min_gap=2.0))
+        # move the knots over (or partly beside) the observed range
+        z = sy['zeta_knots_mm']
+        where = draw(st.sampled_from(['cover', 'below', 'above', 'as-is']))
+        if where != 'as-is':
+            target = {'cover': lo - 5.0, 'below': lo - (z[-1] - z[0]) * 0.7,
+                      'above': hi - (z[-1] - z[0]) * 0.3}[where]
+            shift = target - z[0]
+            sy['zeta_knots_mm'] = [round(v + shift, 4) for v in z]
+        T = draw(gen_params.spline_T(min_gap=5.0))
+    else:
+        sy = draw(gen_params.peatclsm_sy())
+        T = draw(gen_params.peatclsm_T())
+    record['parameters'] = {'specific_yield': sy, 'transmissivity': T}
+    return record
+
+
+def check_cli(case):
+    h = float(case['grid'])
+    params = case['parameters']
+    with Workflow(case) as wf:
+        guarded(wf.load)
+        guarded(wf.classify)
+        guarded(wf.zeta_grid, case['grid'])
+        connection = wf.connect()
+        try:
+            rises, _ = model_master.rise_series(connection)
+            table, _ = model_master.crossing_table(rises, h)
+            ok = model_master.main_body(table)[2]
+        finally:
+            connection.close()
+        if not ok:
+            raise Reject('rise main body ambiguous')
+        guarded(wf.rise)
+        connection = wf.connect()
+        try:
+            _, per_level = read_curve(connection, 'rise')
+        finally:
+            connection.close()
+        ppath = wf.path('parameters.yml')
+        with open(ppath, 'w') as f:
+            yaml.safe_dump(params, f)
+        table_text = guarded(wf.simulate, 'rise', ppath, False)
+        vector_text = guarded(wf.simulate, 'rise', ppath, True)
+    measured = {k: sum(r.values()) / len(r) for k, r in per_level.items()}
+    ks = sorted(measured)
+    doc = yaml.safe_load(table_text)
+    if not (isinstance(doc, list) and doc and isinstance(doc[0], list)
+            and len(doc[0]) == 3 and all(isinstance(x, str) for x in doc[0])):
+        raise Violation('rise-table-header-missing', repr(doc)[:200])
+    header = [x.lower() for x in doc[0]]
+    if not ('mm' in header[0] and 'measured' in header[1]
+            and 'simulated' in header[2]):
+        raise Violation('rise-table-header-wrong', repr(doc[0]))
+    rows = doc[1:]
+    if len(rows) != len(ks):
+        raise Violation('rise-table-row-count',
+                        '{} rows, {} levels'.format(len(rows), len(ks)))
+    scale = max(abs(v) for v in measured.values()) + 1.0
+    for row, k in zip(rows, ks):
+        if abs(row[0] - k * h) > 1e-9 * max(abs(k * h), 1.0):
+            raise Violation(
+                'rise-table-level-column',
+                'row level {!r}, expected {!r} mm (ascending)'.format(
+                    row[0], k * h))
+        if abs(row[1] - measured[k]) > 1e-9 * scale:
+            raise Violation('rise-table-measured-column',
+                            'level {}: {!r} vs {!r}'.format(
+                                k, row[1], measured[k]))
+    sim = [row[2] for row in rows]
+    meas = [row[1] for row in rows]
+    sscale = scale + max(abs(v) for v in sim)
+    if abs(sum(sim) / len(sim) - sum(meas) / len(meas)) > 1e-9 * sscale:
+        raise Violation('rise-table-mean-not-measured-mean',
+                        repr((sum(sim) / len(sim), sum(meas) / len(meas))))
+    vector = yaml.safe_load(vector_text)
+    if vector != sim:
+        raise Violation('rise-observations-differ-from-table',
+                        repr((vector[:3], sim[:3])))
+    # simulated differences = integral of the specific yield
+    sy_mod = tree.mod('specific_yield')
+    f = guarded(sy_mod.create_specific_yield_function,
+                copy.deepcopy(params['specific_yield']))
+    knots = _knots(f, params['specific_yield'])
+    for (ka, a), (kb, b) in zip(zip(ks[:-1], sim[:-1]), zip(ks[1:], sim[1:])):
+        ref, ref_abs = reference_integral(f, ka * h, kb * h, knots)
+        if abs((b - a) - ref) > 1e-9 * (ref_abs + sscale):
+            raise Violation('rise-table-simulated-not-integral',
+                            'levels {}..{}: {!r} vs {!r}'.format(
+                                ka, kb, b - a, ref))
+    labels = {params['specific_yield']['type']}
+    if len(ks) >= 5:
+        labels.add('nontrivial')
+    return labels
+
+
+PARTS.append(
+    Part('cli', check_cli, strategy=lambda tier: cli_cases(tier),
+         budget={'quick': 15, 'thorough': 200},
+         describe='`spowtd simulate rise` table and --observations vector'))
